@@ -545,6 +545,49 @@ impl ResourcePool {
     }
 }
 
+#[cfg(feature = "verif")]
+impl ResourcePool {
+    /// Verification hook (read-only): kind tag (0 empty, 1 indices, 2 groups, 3 sum), full size and
+    /// free sum amount in fractions, and per group the free index stack (Vec order) with the
+    /// fraction map sorted by index.
+    #[allow(clippy::type_complexity)]
+    pub(crate) fn verif_snapshot(&self) -> (u8, u64, u64, Vec<(Vec<u32>, Vec<(u32, u32)>)>) {
+        fn fr(m: &Map<ResourceIndex, ResourceFractions>) -> Vec<(u32, u32)> {
+            let mut v: Vec<(u32, u32)> = m.iter().map(|(k, f)| (k.as_num(), *f)).collect();
+            v.sort_unstable();
+            v
+        }
+        match self {
+            ResourcePool::Empty => (0, 0, 0, Vec::new()),
+            ResourcePool::Indices(p) => (
+                1,
+                p.full_size.total_fractions(),
+                0,
+                vec![(
+                    p.indices.iter().map(|i| i.as_num()).collect(),
+                    fr(&p.fractions),
+                )],
+            ),
+            ResourcePool::Groups(p) => (
+                2,
+                p.full_size.total_fractions(),
+                0,
+                p.indices
+                    .iter()
+                    .zip(p.fractions.iter())
+                    .map(|(i, f)| (i.iter().map(|i| i.as_num()).collect(), fr(f)))
+                    .collect(),
+            ),
+            ResourcePool::Sum(p) => (
+                3,
+                p.full_size.total_fractions(),
+                p.free.total_fractions(),
+                Vec::new(),
+            ),
+        }
+    }
+}
+
 #[cfg(test)]
 mod tests {
     use crate::internal::common::resources::ResourceAllocation;
